@@ -2,7 +2,8 @@
    Statements only; proofs in Lang/Loops.v.  The statements are about the reference
    semantics (Lang/Sem.v), which the implementation is compared with on every run. *)
 From Coq Require Import ZArith String List Bool QArith Sorted.
-From Bardolph Require Import Gen.Codes Lang.Value Lang.World Lang.Regs Lang.Syntax Lang.Sem Lang.Loops.
+From Bardolph Require Import Gen.Codes Lang.Value Lang.Instr Lang.Loader Lang.World Lang.Regs Lang.Machine Lang.Syntax Lang.Sem Lang.CodeGen
+  Lang.Loops Lang.ExprCompile Lang.Simulation Lang.CallFrames Lang.RangeLoop Lang.Simulation3.
 Import ListNotations.
 Open Scope Z_scope.
 
@@ -29,7 +30,7 @@ Theorem C04_range_prep : forall a b,
    do cnt <- eval_binop OP_ADD cnt0 (VInt 1);
    Ok (cnt, if truthy neg then VInt (-1) else VInt 1))
   = Ok (VInt (range_count a b), VInt (range_incr a b)).
-Proof. exact range_prep. Qed.
+Proof. exact Loops.range_prep. Qed.
 Print Assumptions C04_range_prep.
 
 Theorem C04_range_values_are_a_to_b : forall a b,
@@ -105,3 +106,19 @@ Theorem C04_members_each_once : forall sel w g names,
   members sel w g = Some names -> StronglySorted str_lt names /\ NoDup names /\ names <> [].
 Proof. exact members_each_once. Qed.
 Print Assumptions C04_members_each_once.
+
+(* The compiled loop, not only the reference semantics: for `repeat with v from a to b` whose bounds are ordinary values and whose
+   body is made of the covered statements (Lang/Simulation3.v: conditionals, blocks, loops, break, calls, return), anywhere in a
+   loaded image, inside a routine or not, the machine running LOOP; first; last; the count and increment arithmetic; the test;
+   the body; the count-down and the step of the variable; END_LOOP ends where the source says with the events the source says:
+   behind the loop when it ends or is broken out of, behind the call when the body returns.  The statement [Sem.exec ... = ROk sig ss']
+   is the reference run whose count and values the theorems above describe. *)
+Theorem C04_range_loop_compiled_runs_as_its_source_says :
+  forall rt mt (inr : bool) v a b body, plain_rval mt a = true -> plain_rval mt b = true -> SimpleB rt mt true inr body ->
+  forall after im ss s sig ss' fuel, routines_loaded rt mt im -> in_ret_ok inr (m_frames s) ->
+  depth_ok (m_frames s) (zlength (m_stack s)) -> sim ss s ->
+  code_at im (m_pc s) (c_stmt rt mt false after (SRepeat (LRange v a b) body)) ->
+  Sem.exec rt mt fuel false ss (SRepeat (LRange v a b) body) = ROk sig ss' ->
+  outcome after im ss s sig ss' (c_stmt rt mt false after (SRepeat (LRange v a b) body)).
+Proof. exact range_loop_simulation. Qed.
+Print Assumptions C04_range_loop_compiled_runs_as_its_source_says.
